@@ -33,46 +33,7 @@ OTHER3 = ["SubWordValue", "MulShiftedValue", "PackedEncoding"]
 
 # ------------------------------------------------------------------------------------------ keccak (independent)
 
-_RC = [0x0000000000000001, 0x0000000000008082, 0x800000000000808A, 0x8000000080008000, 0x000000000000808B,
-       0x0000000080000001, 0x8000000080008081, 0x8000000000008009, 0x000000000000008A, 0x0000000000000088,
-       0x0000000080008009, 0x000000008000000A, 0x000000008000808B, 0x800000000000008B, 0x8000000000008089,
-       0x8000000000008003, 0x8000000000008002, 0x8000000000000080, 0x000000000000800A, 0x800000008000000A,
-       0x8000000080008081, 0x8000000000008080, 0x0000000080000001, 0x8000000080008008]
-_ROT = [[0, 36, 3, 41, 18], [1, 44, 10, 45, 2], [62, 6, 43, 15, 61], [28, 55, 25, 21, 56], [27, 20, 39, 8, 14]]
-_M64 = (1 << 64) - 1
-
-
-def _f1600(a):
-    for rc in _RC:
-        c = [a[x][0] ^ a[x][1] ^ a[x][2] ^ a[x][3] ^ a[x][4] for x in range(5)]
-        d = [c[(x - 1) % 5] ^ (((c[(x + 1) % 5] << 1) | (c[(x + 1) % 5] >> 63)) & _M64) for x in range(5)]
-        a = [[a[x][y] ^ d[x] for y in range(5)] for x in range(5)]
-        b = [[0] * 5 for _ in range(5)]
-        for x in range(5):
-            for y in range(5):
-                r = _ROT[x][y]
-                v = a[x][y]
-                b[y][(2 * x + 3 * y) % 5] = ((v << r) | (v >> (64 - r))) & _M64 if r else v
-        a = [[b[x][y] ^ ((~b[(x + 1) % 5][y]) & b[(x + 2) % 5][y]) for y in range(5)] for x in range(5)]
-        a[0][0] ^= rc
-    return a
-
-
-def keccak256(data):
-    rate = 136
-    p = bytearray(data)
-    p.append(0x01)
-    while len(p) % rate:
-        p.append(0)
-    p[-1] |= 0x80
-    a = [[0] * 5 for _ in range(5)]
-    for off in range(0, len(p), rate):
-        blk = p[off:off + rate]
-        for i in range(rate // 8):
-            a[i % 5][i // 5] ^= int.from_bytes(blk[8 * i:8 * i + 8], "little")
-        a = _f1600(a)
-    out = b"".join(a[i % 5][i // 5].to_bytes(8, "little") for i in range(4))
-    return int.from_bytes(out, "big")
+from keccak import keccak256, _f1600  # noqa: F401  (moved to tools/keccak.py)
 
 
 def ref_table(n):
